@@ -46,7 +46,8 @@ EpochOk(ev, u, i, k) ==
   (* what is started is this task, as it was handed in, on behalf of the user who handed it in *)
   /\ \A j \in S : (Has(ev[j], "vuid") /\ ~Failed(ev[j])) =>
         /\ ev[j].vuid = u
-        /\ (Has(ev[i].items[k], "peer") => ev[j].vsetuid = ev[i].items[k].peer)
+        /\ (Has(ev[i].items[k], "peer") => ev[j].vsetuid = ev[i].items[k].peer)      \* vsetuid: the last such line, the one the executor goes by
+        /\ (Has(ev[j], "vnsetuid") => ev[j].vnsetuid = 1)                            \* and the only one: no value of the task becomes a line of the request
         /\ ev[j].vsummary = "echo " \o u
   (* what is started is a run of the command: a report "not run" is for a task whose own earlier runs may still be going (C12), *)
   (* never for one all of whose earlier starts the daemon has seen end, whatever other tasks do or did                        *)
